@@ -74,6 +74,11 @@ CLAIMED = {
     level="The geodesic properties of SLERP are trigonometric identities in the code's own weights and are decided exactly for all unit endpoints and weights, per branch; gap filling is index arithmetic decided over symbolic interval bounds. Rounding at the LERP/SLERP switch is not decided.",
     note="Unit endpoints as symbols with declared unit relations; arccos atoms with cos(arccos d) = d, sin(arccos d) = sqrt(1-d^2).",
     ref="DESIGN.md §2 C12"),
+ "C10": dict(
+    technique="AVN identities on the extracted conversions (arguments of the arctan2/arcsin atoms of to_angles o from_rpy, axis-angle matrices and inverses, exp o log, q**a against [cos(a t), u sin(a t)], rotation/rot_seq/DCM keyword constructors against ordered elementary products) and the BAND rule turning literal isclose tolerances of identity shortcuts into rotation-angle intervals",
+    level="Each round trip is decided exactly as an identity between the code's own formulas (per branch, including threshold-guarded arms reachable inside the stated domain); shortcut thresholds are compared with the domain by literal arithmetic. Branch cuts at +/-pi, gimbal lock and small-angle conditioning are not decided.",
+    note="Half-angle atoms with double-angle expansion; arccos/arctan2 atoms with the usual sin/cos compositions; generic position inside the stated open domains (sin, cos of the half angle positive).",
+    ref="DESIGN.md §2 C10"),
 }
 
 NOT_YET = "check not built yet in this session (work in progress; see DESIGN.md §2 for the planned static rules)"
